@@ -1,3 +1,4 @@
+//go:build !verif
 // +build !verif
 
 // Package vhook provides verification hook points. Without the "verif" build
@@ -9,8 +10,8 @@ const (
 	After  = 1
 )
 
-func Point(name string)                                 {}
-func PointI(name string, a, b int64)                    {}
-func PointS(name string, s string)                      {}
+func Point(name string)                                  {}
+func PointI(name string, a, b int64)                     {}
+func PointS(name string, s string)                       {}
 func FS(phase int, op string, path string, off, n int64) {}
-func Mem(op string, addr uintptr, n int)                {}
+func Mem(op string, addr uintptr, n int)                 {}
